@@ -132,7 +132,7 @@ def r18_3(ctx):
                         names_in_facts |= {x.id for x in ast.walk(nd) if isinstance(x, ast.Name)}
                     kind = 'break' if isinstance(b, ast.Break) else 'return'
                     st = '%s under %s' % (kind, ' and '.join(('' if pol else 'not ') + t for (t, pol, _n) in facts) or 'no condition')
-                    if not facts:
+                    if not facts or all(isinstance(nd, ast.Constant) for (_t, _p, nd) in facts):
                         ctx.violated('R18.3', fi.qual, st, b, 'unconditional exit from the approximation loop')
                     elif names_in_facts & set(LIMIT_WORDS):
                         ctx.met('R18.3', fi.qual, st[:140], b, 'limit exit')
